@@ -29,6 +29,17 @@ claim("C17", "exploration",
   "deterministic simulation: tape-driven adversarial WASI histories over read-only mounts, snapshot invariant after every step, model-checked reads, tape shrinking + replay",
   "DESIGN.md §5 C17")
 
+claim("C06", "exploration",
+  "Seeded simulation of call histories over tape-generated plan guests on both engines: three instances (two of one compiled module, one importing the first), 5-30 top-level calls, host calls that panic / raise runtime errors / close modules / re-enter guests at any nesting depth, guest traps of seven kinds, proc_exit, stack overflow. An executable plan model predicts error kind, results and the complete observable state (cells, globals, memory size, closed flag) of every instance after every call; worker death is a violation. Sampling, not proof.",
+  "Trusted: the plan model (about 250 lines) and the wasm builder; host function is the simulator's; stack-trace text not judged. Known finding: unbounded host re-entrancy crashes the process (confirmed in a sacrificial child each run).",
+  "deterministic simulation: tape-driven call histories with scripted host faults vs executable plan model, process-survival watchdog, tape shrinking + replay",
+  "DESIGN.md §5 C06")
+claim("C20", "exploration",
+  "The C06 histories with a recording listener factory (all functions or a tape-chosen subset): the plan model predicts the exact event stream - before(params, call chain per call engine), after(results), abort - including unwinding through re-entrant host calls; checked by a bracketing automaton plus exact comparison, on both engines against the same model, with results/state equal to the listener-free semantics. Deep chains (31-60 frames) are judged against recorded known-finding signatures. Sampling, not proof.",
+  "Trusted: plan model; i32 values are compared in their low 32 bits and only the first len(ParamTypes/ResultTypes) slots (the compiler passes wider slices); the module argument of listener callbacks is not compared; tail calls and the recursion functions carry no listeners.",
+  "deterministic simulation: scripted fault histories with recording listeners vs predicted event stream (exactly-once bracketing, nesting, values, stack chains)",
+  "DESIGN.md §5 C20")
+
 def main():
     m = dict(version=1,
       setup_cmd="./setup.sh",
